@@ -13,6 +13,7 @@ fn main() {
         ("c15", "record") => yv::c15::record(&args),
         ("c13", "record") => yv::c13::record(&args),
         ("c12", "record") => yv::c12::record(&args),
+        ("c11", "record") => yv::c11::record(&args),
         _ => { eprintln!("unknown command {:?}", &a[..2]); std::process::exit(2); }
     }
 }
